@@ -76,7 +76,7 @@ def main():
     return outer("/x", 3)
 ''', "main", inlined={"m.outer.name", "m.outer.put"})
 
-# 4 must not inline: control flow, star args, recursion, captured name, generator, overridden method
+# 4 must not inline: recursion, captured name, generator, overridden method (branching / *args helpers: see 8 and 9)
 example('''
 G = 10
 def branchy(a):
@@ -102,7 +102,7 @@ class B(A):
 def main():
     G = 1                     # a local that would capture the helper's global
     return branchy(0), star(1, 2), uses_global(5), list(gen(3)), A().f(), B().f(), G
-''', "main", not_inlined={"m.branchy", "m.star", "m.rec", "m.uses_global", "m.gen", "m.A.h", "m.B.h"})
+''', "main", not_inlined={"m.rec", "m.uses_global", "m.gen", "m.A.h", "m.B.h"})
 
 # 5 defaults, keywords, parameter reassigned in the helper, tuple unpacking, augmented assignment on an argument
 example('''
@@ -177,6 +177,118 @@ def main():
     b = "caller's own b"
     return out, b
 ''', "main", inlined={"m.inner", "m.middle", "m.mutate"})
+
+# 8 guard-style helpers (returns in tail position of ifs), loops and with inside helpers, fall-off-the-end, used as
+#   statement, assignment, return value and if-test; a return inside a loop must be left alone
+example('''
+import contextlib
+LOG = []
+def resolve(flag, allow):
+    if flag is not None:
+        return flag
+    LOG.append("default")
+    return not allow
+def classify(n):
+    if n < 0:
+        LOG.append("neg")
+        return "neg"
+    elif n == 0:
+        return "zero"
+    else:
+        if n > 10:
+            return "big"
+    LOG.append("small")
+    return "small"
+def maybe(n):
+    if n:
+        return n * 2
+def total(xs):
+    acc = 0
+    for x in xs:
+        if x < 0:
+            continue
+        acc += x
+    with contextlib.suppress(KeyError):
+        acc += {}["missing"]
+    return acc
+def find(xs, v):
+    for i, x in enumerate(xs):
+        if x == v:
+            return i
+    return -1
+def finish(state, flag):
+    if resolve(flag, state["allow"]):
+        state["deleted"] = True
+class K:
+    def __init__(self):
+        self.v = 3
+    def _guard(self, n):
+        if n > self.v:
+            return False
+        self.v -= n
+        return True
+    def take(self, n):
+        if self._guard(n):
+            return "ok"
+        return "no"
+def main():
+    out = []
+    for f, a in ((None, True), (None, False), (0, True), (1, False)):
+        r = resolve(f, a)
+        out.append(r)
+    for n in (-1, 0, 5, 50):
+        c = classify(n)
+        out.append(c)
+    m = maybe(0)
+    out.append(m)
+    m = maybe(4)
+    out.append(m)
+    t = total([1, -2, 3])
+    out.append(t)
+    i = find([4, 5, 6], 5)
+    out.append(i)
+    st = {"allow": False}
+    finish(st, None)
+    out.append(st)
+    k = K()
+    out.append([k.take(2), k.take(2), k.take(1), k.v])
+    return out, LOG
+''', "main", inlined={"m.resolve", "m.classify", "m.maybe", "m.total", "m.finish", "m.K._guard"}, not_inlined={"m.find"})
+
+# 9 *args helpers
+example('''
+import os
+def path_to(base, *parts):
+    return os.path.join(base, *parts)
+def tally(*xs, start=0):
+    t = start
+    for x in xs:
+        t += x
+    return t
+def main():
+    a = path_to("/r")
+    b = path_to("/r", "x", "y" + "z")
+    c = tally()
+    d = tally(1, 2, 3, start=10)
+    return a, b, c, d, os.path.join("/q", path_to("m", "n"))
+''', "main", inlined={"m.path_to", "m.tally"})
+
+# 10 a function handed to a helper as an optional argument: the helper's `is None` test is decided by the substitution
+example('''
+def fill(v):
+    return [v] * 2
+def nest(data, maker=None):
+    if maker is None:
+        out = list(data)
+    else:
+        out = list(data) + maker(data[0])
+    return out
+def main():
+    a = nest([1, 2])
+    b = nest([3, 4], fill)
+    c = nest([5], maker=None)
+    return a, b, c
+''', "main", inlined={"m.nest"})
 
 
 def run(tree, entry):
